@@ -4,9 +4,11 @@
 D=$1; shift
 cd /repo && git status --short | grep -q . && { echo "repo not clean"; exit 2; }
 git -C /repo apply /verif/seeded/$D/patch.diff || { echo "patch does not apply"; exit 2; }
+# evidence written while a seeded change is applied must not replace the evidence of the real tree
+rm -rf /verif/target/evidence-keep; cp -r /verif/evidence /verif/target/evidence-keep
 for c in "$@"; do
   /verif/check $c quick > /tmp/seeded_${D}_$c.txt 2>&1; rc=$?
   echo "seeded=$D check=$c exit=$rc :: $(grep -E '^VIOLATION' /tmp/seeded_${D}_$c.txt | head -1 | cut -c1-260)"
   grep -E "^C[0-9]+ quick|HARNESS" /tmp/seeded_${D}_$c.txt | head -2
 done
-git -C /repo checkout -- . ; git -C /repo status --short; ( cd /verif/harness && cargo build --release --offline >/dev/null 2>&1 )
+git -C /repo checkout -- . ; git -C /repo status --short; rm -rf /verif/evidence; mv /verif/target/evidence-keep /verif/evidence; ( cd /verif/harness && cargo build --release --offline >/dev/null 2>&1 )
